@@ -1,0 +1,95 @@
+package common
+
+import (
+	"github.com/grafana/cog/internal/ast"
+)
+
+// ReferredPackages adds the packages that the types of a builder refer to: the
+// packages that the file of the builder can import.
+func ReferredPackages(builder ast.Builder, packages map[string]struct{}) {
+	var fromType func(def ast.Type)
+	fromType = func(def ast.Type) {
+		switch {
+		case def.IsRef():
+			packages[def.AsRef().ReferredPkg] = struct{}{}
+		case def.IsConstantRef():
+			packages[def.AsConstantRef().ReferredPkg] = struct{}{}
+		case def.IsArray():
+			fromType(def.AsArray().ValueType)
+		case def.IsMap():
+			fromType(def.AsMap().IndexType)
+			fromType(def.AsMap().ValueType)
+		case def.IsStruct():
+			for _, field := range def.AsStruct().Fields {
+				fromType(field.Type)
+			}
+		case def.IsDisjunction():
+			for _, branch := range def.AsDisjunction().Branches {
+				fromType(branch)
+			}
+		case def.IsIntersection():
+			for _, branch := range def.AsIntersection().Branches {
+				fromType(branch)
+			}
+		}
+	}
+
+	fromPath := func(path ast.Path) {
+		for _, item := range path {
+			fromType(item.Type)
+			if item.TypeHint != nil {
+				fromType(*item.TypeHint)
+			}
+		}
+	}
+
+	var fromValue func(value ast.AssignmentValue)
+	fromValue = func(value ast.AssignmentValue) {
+		if value.Argument != nil {
+			fromType(value.Argument.Type)
+		}
+		if value.Envelope != nil {
+			fromType(value.Envelope.Type)
+			for _, field := range value.Envelope.Values {
+				fromPath(field.Path)
+				fromValue(field.Value)
+			}
+		}
+	}
+
+	fromAssignments := func(assignments []ast.Assignment) {
+		for _, assignment := range assignments {
+			fromPath(assignment.Path)
+			fromValue(assignment.Value)
+			for _, check := range assignment.NilChecks {
+				fromPath(check.Path)
+				fromType(check.EmptyValueType)
+			}
+		}
+	}
+
+	fromArguments := func(arguments []ast.Argument) {
+		for _, argument := range arguments {
+			fromType(argument.Type)
+		}
+	}
+
+	packages[builder.For.SelfRef.ReferredPkg] = struct{}{}
+	fromType(builder.For.Type)
+
+	for _, property := range builder.Properties {
+		fromType(property.Type)
+	}
+
+	fromArguments(builder.Constructor.Args)
+	fromAssignments(builder.Constructor.Assignments)
+
+	for _, option := range builder.Options {
+		fromArguments(option.Args)
+		fromAssignments(option.Assignments)
+	}
+
+	for _, factory := range builder.Factories {
+		fromArguments(factory.Args)
+	}
+}
